@@ -181,6 +181,10 @@ public:
 
     slice_t& operator=(const base_array<T>& rhs) {
         DSPLIB_ASSERT(&_base != &rhs, "Assigned array to same slice");
+        if (rhs.empty()) {
+            DSPLIB_ASSERT(this->size() == 0, "Slices size must be equal");
+            return *this;
+        }
         return (*this = rhs.slice(0, rhs.size()));
     }
 
